@@ -35,6 +35,8 @@ def run(ctx):
     ctx.tlc_mc("modelsel/KFold.tla", "modelsel/KFoldMCsh_%s.cfg" % ctx.tier, must_cover=("Sizes", "Cut", "Iter"))
     ctx.tlc_mc("modelsel/CrossValMC.tla", "modelsel/CrossValMC_%s.cfg" % ctx.tier,
                must_cover=("Fit", "Predict", "Score", "Finish"), timeout=1500)
+    # unbounded lemma on the fold-size arithmetic (TLAPS): sizes differ by <= 1, are >= 1, sum to n
+    ctx.tlapm("modelsel/proofs/FoldSizes.tla")
     # impl -> spec
     files = []
     for mode in ("kfold", "tts", "cv"):
